@@ -179,11 +179,13 @@ func (b *expandBody) expandBlocks(schema *hcl.BodySchema, rawBlocks hcl.Blocks, 
 				continue
 			}
 
+			// If the schema names the block type more than once then the
+			// last entry wins, as it does for a static block of that type
+			// and in hiddenBlocks.
 			var blockS *hcl.BlockHeaderSchema
-			for _, candidate := range schema.Blocks {
-				if candidate.Type == realBlockType {
-					blockS = &candidate
-					break
+			for i := range schema.Blocks {
+				if schema.Blocks[i].Type == realBlockType {
+					blockS = &schema.Blocks[i]
 				}
 			}
 			if blockS == nil {
